@@ -5,7 +5,10 @@
 // ResetVars+ResetRand additionally with the same run on a new interpreter.
 // Every run is handed a standard input of its own and is called the way its
 // configuration says (Execute, ExecuteContext(Background), ExecuteContext with a
-// context that is cancelled / expires the moment the call has returned).
+// context that is cancelled / expires the moment the call has returned), with
+// its own Args / Argv0 / Environ / Chars / sandbox flags.  The value of every
+// rand() is compared with the draw of a NEW interpreter the specification
+// names (seed, position in the sequence).
 // In the other direction Record drives longer random histories and writes what
 // every run printed as events for Trace_Reuse.tla.
 package c14
@@ -72,6 +75,12 @@ func stdinOf(cfg string, tag int) string {
 		return fmt.Sprintf("x y\n7 8\nt%d 9\n", tag)
 	case "c4":
 		return fmt.Sprintf("x y\n3 4\nt%d 9\n", tag)
+	case "c5":
+		return fmt.Sprintf("x y\n2 1\nt%d 9\n", tag)
+	case "c6":
+		return fmt.Sprintf("x y\n4 2\nt%d 9\n", tag)
+	case "c7":
+		return fmt.Sprintf("x y\n6 3\nt%d 9\n", tag)
 	}
 	panic("c14: unknown configuration " + cfg)
 }
@@ -83,8 +92,8 @@ func stdinOf(cfg string, tag int) string {
 // ExecuteContext with a context whose deadline passes as soon as the call has
 // returned.  Kinds that cancel their own call get a cancellable context.
 func apiOf(kind, cfg string) string {
-	api := map[string]string{"c0": "exec", "c1": "ctx", "c2": "exec", "c3": "ctxdl", "c4": "ctxbg"}[cfg]
-	if (kind == "cancel" || kind == "exit_endcancel") && (api == "exec" || api == "ctxbg") {
+	api := map[string]string{"c0": "exec", "c1": "ctx", "c2": "exec", "c3": "ctxdl", "c4": "ctxbg", "c5": "exec", "c6": "exec", "c7": "exec"}[cfg]
+	if (kind == "cancel" || kind == "exit_endcancel" || kind == "rg_cancel") && (api == "exec" || api == "ctxbg") {
 		return "ctx"
 	}
 	return api
@@ -122,7 +131,34 @@ func (c *deadlineCtx) expire() {
 
 type workDir struct{ dir, wf, rf, inf string }
 
-var dirPool = sync.Pool{New: func() any {
+// dirPool hands out work directories (one per replay in progress; a free list, not a sync.Pool: a pool is emptied
+// by every garbage collection and would create thousands of directories).
+type dirList struct {
+	mu   sync.Mutex
+	free []*workDir
+}
+
+func (l *dirList) Get() any {
+	l.mu.Lock()
+	if n := len(l.free); n > 0 {
+		w := l.free[n-1]
+		l.free = l.free[:n-1]
+		l.mu.Unlock()
+		return w
+	}
+	l.mu.Unlock()
+	return newWorkDir()
+}
+
+func (l *dirList) Put(w *workDir) {
+	l.mu.Lock()
+	l.free = append(l.free, w)
+	l.mu.Unlock()
+}
+
+var dirPool = &dirList{}
+
+func newWorkDir() *workDir {
 	// under the current directory: the check runs the harness inside its work
 	// directory, which is removed when the check ends
 	cwd, err := os.Getwd()
@@ -136,7 +172,7 @@ var dirPool = sync.Pool{New: func() any {
 	allDirs = append(allDirs, d)
 	allDirsMu.Unlock()
 	return w
-}}
+}
 
 var (
 	allDirs   []string
@@ -221,6 +257,17 @@ func (s *session) run(kind, cfg string, tag int, w *workDir) (res Result) {
 	case "c2":
 		c.InputMode = interp.CSVMode
 		c.CSVInput = interp.CSVInputConfig{Header: true}
+	case "c5":
+		// assignment operands: the first sets the program's global g, the others name no variable of the program
+		c.Argv0 = "prog"
+		c.Args = []string{"g=G5", "o2=B", "o3=C"}
+		c.Environ = []string{"home", "hh", "lang", "c"}
+	case "c6":
+		c.Args = []string{"o9=X"}
+		c.Environ = []string{"user", "bob"}
+		c.Chars = true
+	case "c7":
+		c.NoExec, c.NoFileWrites, c.NoFileReads, c.NoArgVars = true, true, true, true
 	}
 	defer func() {
 		if r := recover(); r != nil {
@@ -314,11 +361,23 @@ func group(key string) string {
 		return "record"
 	case "RSTART", "RLENGTH", "rstart":
 		return "match"
+	case "RT":
+		return "rt"
+	case "rg", "nx", "rgl":
+		return "range"
+	case "ARGC", "argvc", "argv", "argvx", "argvw":
+		return "argv"
+	case "env", "envw":
+		return "environ"
+	case "FIELDS":
+		return "fields-array"
+	case "chars":
+		return "chars-flag"
 	case "INPUTMODE":
 		return "inputmode"
-	case "OUTPUTMODE", "":
+	case "OUTPUTMODE", "", "pl":
 		return "outputmode"
-	case "rand":
+	case "rand", "rnd", "sr":
 		return "rand"
 	case "wclose", "wline":
 		return "outstreams"
@@ -341,35 +400,81 @@ type mismatch struct {
 	exp, got    string
 }
 
+// ---- reference draws of a new interpreter ----
+
+// The statement fixes the value of a rand() only relative to a new
+// interpreter: refDraws(seed) is the sequence of rand() values a NEW
+// interpreter prints after srand(seed) -- for seed 1, the seed of a new
+// interpreter, without any srand call.  The values are taken once, from
+// interp.ExecProgram (which never sees ResetRand or an earlier run).
+const refProgram = `BEGIN { if (s != "") srand(s + 0); for (i = 0; i < n; i++) printf "%.12f\n", rand() }`
+
+const refLen = 400
+
 var (
-	freshRandOnce sync.Once
-	freshRand     []byte
+	refMu    sync.Mutex
+	refTable = map[int][]string{}
+	refSeeds = []int{1, 5, 7, 9} // the seeds the program uses
 )
 
-// firstRandOfFresh is the value the first rand() of a new interpreter yields;
-// the statement fixes rand() after ResetRand only relative to it.
-func firstRandOfFresh() []byte {
-	freshRandOnce.Do(func() {
-		s, err := newSession()
-		must(err)
-		w := dirPool.Get().(*workDir)
-		defer dirPool.Put(w)
-		r := s.run("plain", "c0", 1, w)
-		off := 0
-		for off < len(r.Out) {
-			c, no, ok := parseKeyed(r.Out, off)
-			if !ok {
-				break
+func refDraws(seed int) []string {
+	refMu.Lock()
+	defer refMu.Unlock()
+	if d, ok := refTable[seed]; ok {
+		return d
+	}
+	prog, err := parser.ParseProgram([]byte(refProgram), nil)
+	must(err)
+	var out bytes.Buffer
+	sv := strconv.Itoa(seed)
+	if seed == 1 {
+		sv = ""
+	}
+	_, err = interp.ExecProgram(prog, &interp.Config{Stdin: strings.NewReader(""), Output: &out, Environ: []string{},
+		Vars: []string{"s", sv, "n", strconv.Itoa(refLen)}})
+	must(err)
+	d := strings.Split(strings.TrimSpace(out.String()), "\n")
+	if len(d) != refLen {
+		panic("c14: reference draws: unexpected output")
+	}
+	refTable[seed] = d
+	return d
+}
+
+// refDraw resolves the specification's "seed:idx" to the value of that draw.
+func refDraw(sym string) (string, bool) {
+	a, b, ok := strings.Cut(sym, ":")
+	seed, e1 := strconv.Atoi(a)
+	idx, e2 := strconv.Atoi(b)
+	if !ok || e1 != nil || e2 != nil || seed < 0 || idx < 0 || idx >= refLen {
+		return "", false
+	}
+	return refDraws(seed)[idx], true
+}
+
+var (
+	symOnce  sync.Once
+	symTable map[string]string
+)
+
+// drawSymbol is the inverse (for the recorder): "seed:idx" of the draw with
+// this value among the seeds the program uses, "?" if there is none.
+func drawSymbol(val string) string {
+	symOnce.Do(func() {
+		symTable = map[string]string{}
+		for _, seed := range refSeeds {
+			for i, v := range refDraws(seed) {
+				if _, dup := symTable[v]; dup {
+					panic("c14: two reference draws print the same value " + v)
+				}
+				symTable[v] = fmt.Sprintf("%d:%d", seed, i)
 			}
-			if c.K == "rand" {
-				freshRand = append([]byte{}, c.V...)
-				return
-			}
-			off = no
 		}
-		panic("c14: no rand chunk in the output of a fresh run")
 	})
-	return freshRand
+	if sym, ok := symTable[val]; ok {
+		return sym
+	}
+	return "?"
 }
 
 // diff compares a run's real output with the predicted chunk list.
@@ -406,9 +511,13 @@ func diff(exp []Chunk, got []byte) *mismatch {
 		}
 		switch e.Cmp {
 		case "any":
-		case "fresh":
-			if !bytes.Equal(c.V, firstRandOfFresh()) {
-				return &mismatch{group(e.K), "value", "rand=" + string(firstRandOfFresh()) + " (first of a new interpreter)", "rand=" + string(c.V)}
+		case "rnd":
+			want, ok := refDraw(e.V.String())
+			if !ok {
+				return &mismatch{"rand", "bad-symbol", e.V.String(), string(c.V)}
+			}
+			if string(c.V) != want {
+				return &mismatch{group(e.K), "value", fmt.Sprintf("%s=%s (draw %s of a new interpreter)", e.K, want, e.V.String()), c.K + "=" + string(c.V)}
 			}
 		default:
 			if !bytes.Equal(c.V, e.V.Bytes()) {
@@ -434,6 +543,22 @@ func resetClass(vr string) string {
 	return "no-ResetVars"
 }
 
+// randClass: for the random generator the reset that matters is ResetRand.
+func randClass(vr string) string {
+	if vr == "rand" || vr == "both" {
+		return "after-ResetRand"
+	}
+	return "no-ResetRand"
+}
+
+var cfgNote = map[string]string{
+	"c1": `; Vars FS=":"; OutputMode tsv; Args [inf]`,
+	"c2": "; InputMode csv header",
+	"c5": `; Argv0 "prog"; Args [g=G5 o2=B o3=C]; Environ [home=hh lang=c]`,
+	"c6": "; Args [o9=X]; Environ [user=bob]; Chars",
+	"c7": "; NoExec NoFileWrites NoFileReads NoArgVars",
+}
+
 func describe(c *Case) string {
 	var sb strings.Builder
 	sb.WriteString("interp.New(Program)")
@@ -446,7 +571,7 @@ func describe(c *Case) string {
 		case "both":
 			sb.WriteString("; ResetVars; ResetRand")
 		}
-		fmt.Fprintf(&sb, "; run mode=%s config=%s (%s) stdin=%q", r.Kind, r.Cfg, apiOf(r.Kind, r.Cfg), stdinOf(r.Cfg, r.Tag))
+		fmt.Fprintf(&sb, "; run mode=%s config=%s (%s%s) stdin=%q", r.Kind, r.Cfg, apiOf(r.Kind, r.Cfg), cfgNote[r.Cfg], stdinOf(r.Cfg, r.Tag))
 	}
 	return sb.String()
 }
@@ -514,7 +639,11 @@ func replayOnce(c *Case) hx.Outcome {
 						fmt.Sprintf("run %d (mode %s, config %s) on the reused interpreter ends with a context's error (%s) although the context of its own call is not done", i+1, r.Kind, r.Cfg, res.Text),
 						r.Err, res.Err, prog)
 				}
-				return hx.Fail(fmt.Sprintf("%s/%s/%s/%s", pfx, m.group, dir, resetClass(r.Vr)),
+				cls := resetClass(r.Vr)
+				if m.group == "rand" {
+					cls = randClass(r.Vr)
+				}
+				return hx.Fail(fmt.Sprintf("%s/%s/%s/%s", pfx, m.group, dir, cls),
 					fmt.Sprintf("run %d (mode %s, config %s) on the reused interpreter: output differs from the specification (%s)", i+1, r.Kind, r.Cfg, m.what),
 					m.exp, m.got, prog)
 			}
@@ -538,7 +667,8 @@ func replayOnce(c *Case) hx.Outcome {
 				fmt.Sprintf("run %d (mode %s, config %s): exit status differs", i+1, r.Kind, r.Cfg), r.Status, res.Status, prog)
 		}
 		// after both resets: the very same run on a new interpreter
-		if i == last && i > 0 && r.Vr == "both" {
+		// (not for a run that seeds the generator from the clock)
+		if i == last && i > 0 && r.Vr == "both" && r.Kind != "sr_time" {
 			fs, err := newSession()
 			must(err)
 			fr := fs.run(r.Kind, r.Cfg, r.Tag, w)
